@@ -1033,8 +1033,17 @@ func ruleWireTally(w *World, r *RuleResult) {
 		var pr [][]*T
 		for i := range p.Events {
 			e := &p.Events[i]
-			if e.Kind == "call" && e.Callee != nil && fnKey(e.Callee) == "fmt.Printf" && len(e.Args) == 2 && e.Args[0].Op == "str" && strings.Count(e.Args[0].S, "%d") == 2 {
-				els := elementsOf(p, e.Args[1])
+			isRow := e.Kind == "call" && e.Callee != nil && fnKey(e.Callee) == "fmt.Printf" && len(e.Args) == 2 && e.Args[0].Op == "str" && strings.Count(e.Args[0].S, "%d") == 2
+			va := e.Args
+			if isRow {
+				va = e.Args[1:]
+			}
+			// fmt.Println(win, tie) prints the same bytes as Printf("%d %d\n", win, tie)
+			if e.Kind == "call" && e.Callee != nil && fnKey(e.Callee) == "fmt.Println" && len(e.Args) == 1 && len(elementsOf(p, e.Args[0])) == 2 {
+				isRow = true
+			}
+			if isRow {
+				els := elementsOf(p, va[0])
 				var row []*T
 				for k := 0; k < 2; k++ {
 					x := els[fmt.Sprintf("[%d]", k)]
@@ -1043,13 +1052,32 @@ func ruleWireTally(w *World, r *RuleResult) {
 						if x.Op == "iface" {
 							x = stripConv(x.A[0])
 						}
+						// a rotated loop leaves through its last iteration: counter+1 is still that counter
+						if l := linearOf(x); len(l.Atom) == 1 {
+							for k, a := range l.Atom {
+								if a.Op == "loopvar" && l.Coef[k] == 1 {
+									x = a
+								}
+							}
+						}
 					}
 					row = append(row, x)
 				}
 				pr = append(pr, row)
 			}
 		}
-		if len(pr) > len(printed) {
+		named := func(rows [][]*T) int {
+			n := 0
+			for _, row := range rows {
+				for _, x := range row {
+					if x != nil && !x.IsConst() {
+						n++
+					}
+				}
+			}
+			return n
+		}
+		if len(pr) > len(printed) || (len(pr) == len(printed) && named(pr) > named(printed)) {
 			printed = pr
 		}
 	}
